@@ -14,6 +14,10 @@ def check(ctx):
     ex = one_config(comp, "C25")
     alloc, free, peek, replace, clear = (need_body(ex, n, "C25", comp.site) for n in ("alloc", "free", "peek", "replace", "clear"))
     excl.exclusive(ctx, "C25", "PriorityQueueAllocator", alloc, free, replace)
+    from . import ranges
+
+    for meth, d in (("alloc", "o"), ("free", "i")):
+        ranges.ident_field_range(ctx, "C25.ident-range", comp.site, f"PEA.{meth}.ident", comp.init_attr(meth), d, "ident", "self.entries", "an identifier names one of the entries")
     # free mask = what peek returns
     mask = returned_fields(peek).get("mask")
     o = ex.obj(mask) if mask else None
